@@ -9,6 +9,7 @@ CONSTANTS
   TrackDist = TRUE
   TrackOperand = TRUE
   AdoptLists = TRUE
+  BookkeepFirst = FALSE
   CacheChecksCount = TRUE
 INVARIANT OperandIntact
 INVARIANT FreqExact
